@@ -58,6 +58,13 @@ THEOREMS = {
     "C20_model_is_source_generate_full_combinatoric_space": "the translation of the WHOLE function generate_full_combinatoric_space, regenerated from /repo on this run (Generated/SrcSpace.v), on mapping rows ((name, dose), id), equals the model full_space on the rows (key, id), for every numbering key of the (name, dose) pairs that is injective on the mapping's pairs: the size guard and its raise, zip of the mapping's name and dose columns, itertools.combinations of ALL rows with the screen's arity, the two projections, dict(zip(ids, names))[sample_id], the replicated sample name, and Screen(...) called with the screen's OWN sample_mapping and treatment_mapping",
     "C20_source_synergy_def": "hence, on well-formed input, the TRANSLATED calculate_synergy equals the row-by-row definition synergy_def (C20_synergy_def composed with the link)",
     "C20_source_effect_array_def": "hence, on well-formed input, the TRANSLATED create_single_treatment_effect_array equals effect_array_def",
+    "C20_model_is_source_save_h5": "the translation of the WHOLE method ModelEvaluation.save_h5, regenerated from /repo's models/main.py on this run (Generated/SrcEvalIO.v), denotes the raw HDF5 content it writes; read back by name (the representation map evraw_close) that content is exactly the model's file ev_save e, the 2-d predictions carrying shape[1] = ncols - for all evaluations: which four datasets are created, under which names, from which property of the object (predictions / observations / chain_ids / sample_names, the properties translated too), the sample names passing through the translated encode_string_array",
+    "C20_model_is_source_load_h5": "the translation of the WHOLE classmethod ModelEvaluation.load_h5 on EVERY raw file that holds the four datasets equals the model's ev_load of the represented file when the stored predictions.shape[1] is the number of stored chain ids, and the constructor's ValueError otherwise (no hypothesis on the content): which dataset is read into which local, the translated decode_string_array on the names, and which keyword of cls(...) = the translated __init__ receives which",
+    "C20_model_is_source_string_codec": "the translations of batchie.data.encode_string_array / decode_string_array (the `arr.size == 0` guard, np.empty of the same shape, np.char.encode / decode) are the identity on every 1-d string array, with or without elements (without the guard: an error on arrays without elements, the defect repaired in /repo 6d95451)",
+    "C20_model_is_source_predict_viability_avg_nan": "predict_viability_avg, re-translated with NaN as a VALUE (floats are option Qc, every numpy operator lifted; Generated/SrcCorr.v), on the model's thetas f and a screen with one sample id and one id row per experiment gives, entry by entry, the model's avg_pred; without thetas every entry is 0 / 0 = NaN",
+    "C20_model_is_source_correlation_matrix": "the translation of the WHOLE function models/main.py correlation_matrix, regenerated from /repo on this run (Generated/SrcCorr.v), equals the model correlation_matrix wrapped as the DataFrame (index, columns, values) with the sample names on both axes, for all screens and thetas: dict(zip(sample_ids, sample_names)), the loop over unique_sample_ids in increasing order (the TRANSLATED generate_full_combinatoric_space per sample, the TRANSLATED predict_viability_avg on that space, both appends, the name read from the dict), np.stack (ValueError without samples), np.mean(axis=0, keepdims) = the across-sample mean per combination, X = predictions - mu, np.sqrt(np.sum(np.square(X), axis=1, keepdims)) through the sqrt oracle, X / norm with 0 / 0 = NaN for a whole row, np.einsum('ik, jk->ij') of the normalised rows.  Hypotheses: the oracle's sqrt vanishes exactly at 0 on non-negative arguments (true of the real and the IEEE square root), key injective on the mapping's (name, dose) pairs",
+    "C20_source_corr_symmetric": "hence, for the TRANSLATED correlation_matrix: the DataFrame's columns are its index and its values are symmetric (C20_corr_symmetric composed with the link)",
+    "C20_source_eval_save_load": "hence C20_eval_save_load holds of the translated source: for every evaluation the constructor builds (m = predictions.shape[1]; zero experiments, zero thetas, square matrices included) the translated load_h5 applied to what the translated save_h5 wrote returns the evaluation unchanged",
 }
 ASSUMPTIONS = [
     "floating point rounding is not modelled: the model computes the real-number value over exact rationals; comparison tolerance 1e-9",
@@ -129,7 +136,49 @@ EXPLANATION = ("Model: Model/Metrics.v, Model/Synergy.v, Model/Corr.v; definitio
                "mean_predictions is linked like mse (C20_EV_MEAN_PREDICTIONS).  "
                "ModelEvaluation.__init__ is linked to mk_eval (C20_EV_INIT; trusted there: the four np.issubdtype guards are true, len(predictions.shape) = 2 "
                "iff every row has shape[1] entries, a.shape[0] = length).  "
-               "Not linked (left to the correspondence): correlation_matrix, ModelEvaluation.save_h5 / load_h5, the other predict_* helpers.")
+               "ModelEvaluation.save_h5 / load_h5 are linked (C20_EVIO_SAVE / C20_EVIO_LOAD, with the property sample_names and the helpers "
+               "encode_string_array / decode_string_array of data.py translated too: C20_EV_SAMPLE_NAMES, C20_EVIO_CODEC; Generated/SrcEvalIO.v; "
+               "proofs Proofs/C20SourceIO.v).  The translations work on the raw HDF5 content `evraw` (datasets by name in creation order, last "
+               "part of Model/Metrics.v): save_h5 denotes what it writes, load_h5 reads such a content; the explicit representation map to "
+               "the model's file is evraw_close (the four datasets present under their names with their kinds, the 2-d predictions carrying "
+               "shape[1]).  The `with` block, the order and arguments of the four create_dataset calls, the reads into the four locals, the "
+               "codec calls, the keyword call cls(...) = the translated __init__ on a blank instance and the return inside the `with` come "
+               "from the translation.  Trusted primitives there, one h5py / numpy call each: h5py.File(fn, 'w') = a new empty file and "
+               "h5py.File(fn, 'r') = the content handed in (entering / leaving the context changes nothing else); "
+               "f.create_dataset(NAME, data=d, compression='gzip') for the four literal names = append (NAME, d) of the kind 2-d float / 1-d float / "
+               "1-d int / 1-d bytes, an existing name raises; f[NAME][:] for the four literal names = the stored array (KeyError tag 30 when "
+               "absent, tag 32 when of another kind); self.predictions / .observations / .chain_ids / .sample_names = the translated properties, "
+               "the predictions' shape[1] being the explicit ncols; inside the codec helpers arr.size == 0, np.empty(arr.shape, dtype=...) "
+               "(= arr itself where it has no element, unmodelled tag 34 elsewhere) and np.char.encode(arr) / np.char.decode(arr, 'utf-8') "
+               "(the identity on the strings of an array with elements - the h5py / UTF-8 assumption above -, tag 33 on an array without "
+               "elements, which numpy answers with a float64 array); str and bytes arrays are distinct type names for the translator, so a "
+               "missing or doubled codec call is refused.  "
+               "correlation_matrix is linked (C20_CORR, with predict_viability_avg translated once more in a NaN-carrying vocabulary: "
+               "C20_PREDICT_AVG_NAN; Generated/SrcCorr.v; proofs Proofs/C20SourceCorr.v; vocabulary: last part of Model/Corr.v).  There a float "
+               "is option Qc (None = NaN), every numpy operator is LIFTED (a NaN operand gives NaN), x / 0 with x != 0 (inf) is the unmodelled "
+               "tag 96 (proved not to occur); the screen is (tm, sm, arity) as in the generate_full_combinatoric_space link plus `rows` = the "
+               "(sample id, sample name) pairs of its experiments; the thetas are the model's function f (theta index, sample id, treatment ids).  "
+               "The two list initialisations, the dict, the loop with both appends, the re-binding of `predictions`, the statement order of the "
+               "numeric core and the final DataFrame call come from the translation; the callees generate_full_combinatoric_space and "
+               "predict_viability_avg run their own translations.  The link proves that with at least one theta every intermediate value is a "
+               "number and the lifted operators are the model's Qc operators, that a zero row norm turns the row into NaN (0 / 0), and that "
+               "without thetas everything is NaN.  Hypotheses of the link: key injective on the mapping's (name, dose) pairs; the sqrt oracle is 0 "
+               "exactly at 0 on non-negative arguments (the model tests the sum of squares, numpy divides by its root).  Trusted primitives "
+               "there, one attribute / numpy / pandas call each: screen.sample_ids / screen.sample_names = the columns of rows; "
+               "screen.unique_sample_ids = np.unique(sample_ids) = sorted distinct ids; zip; dict(pairs) (later pair wins) and d[k] (KeyError); "
+               "generate_full_combinatoric_space(s, screen) = its translation on (tm, sm, arity); predict_viability_avg(space, thetas) = its "
+               "translation with Screen.size = the number of the space's sample ids and theta.predict_viability(space) = f row by row "
+               "(Corr.thetas_on; predictions are row-wise functions, property C09); inside predict_viability_avg: screen.size, np.zeros((n,)), "
+               "thetas.n_thetas, thetas.get_theta(i) (Python list indexing), np.isnan / .any(), `a + b` on equal-length vectors (else Err), "
+               "`v / n` entrywise with 0 / 0 = NaN; np.stack(l) = the rows (ValueError when l is empty or the lengths differ); "
+               "np.mean(P, axis=0, keepdims=True) = the mean of every column as a (1, m) row (a matrix without rows: unmodelled tag 96, never "
+               "returned by np.stack); `P - mu` = mu subtracted from every row (other lengths refused); np.square elementwise; "
+               "np.sum(X, axis=1, keepdims=True) = the row sums as an (n, 1) column; np.sqrt on that column = the oracle (NaN for a negative "
+               "entry); `X / c` = every row divided by its entry of the column (another number of rows refused); np.einsum('ik, jk->ij', A, B) = "
+               "all sums over k of A[i][k] * B[j][k] (differing k dimensions refused); pandas.DataFrame(values, index=i, columns=c) = the "
+               "triple.  The corr cases of the correspondence exercise exactly these on numpy / pandas.  "
+               "Not linked (left to the correspondence): predict_viability_all / predict_mean_all / predict_variance_all / predict_mean_avg "
+               "in THIS vocabulary (they are linked in C09's, Generated/SrcPredict.v).")
 
 TAGS = {1: "ValueError", 4: "IndexError", 5: "KeyError"}
 NAN = "nan"
